@@ -17,7 +17,7 @@ PROPERTY = "C01"
 
 # CODE VARIANT FLAGS — the values that match the code in /repo as it is now.  The composition layer has no defect flag of its own: it
 # follows the flags of the layers it is built from (so a repair recorded there is picked up here without an edit): every imported flag
-# holds its repaired value (FRAMES_VARIANT 0, TEXT_FLAGS "00000000", TABLE_FLAGS "000000").  The `except` fallbacks are never taken in a
+# holds its repaired value (FRAMES_VARIANT 0, TEXT_FLAGS "00000000", TABLE_FLAGS "0000000").  The `except` fallbacks are never taken in a
 # normal run; their literals date from before fixes f5f2be9 / f7ecf83 (rstripCountsChars, columnsZeroCount = rich 9.10.0 as found).
 try:  # frames (Model/Frames.lean `Variant`): bitmask 1 zeroWidthChild, 2 ruleRightRepeat, 4 rstripCountsChars, 8 columnsZeroCount
     from props.c08 import VARIANT as FRAMES_VARIANT
@@ -27,21 +27,15 @@ try:  # text / wrap (Model/Text.lean `Variant` x6, Model/Wrap.lean `justifyNeg`,
     from props.c02 import FLAGS as TEXT_FLAGS
 except Exception:  # pragma: no cover
     TEXT_FLAGS = "00000000"  # every text / wrap defect is repaired in /repo
-try:  # table (Model/Table.lean `Flags`: leadingRepeat, minWidthCapsExpand, fixedRawMaximum, noColumnsAsserts, flexNegative, staleTableWidth)
+try:  # table (Model/Table.lean `Flags`, all seven, in the order of props/c07.py FLAGS: one flip there serves C07, C01 and C09)
     from props.c07 import FLAGS as _TF
     TABLE_FLAGS = "".join(str(int(x)) for x in _TF)
 except Exception:  # pragma: no cover
-    TABLE_FLAGS = "000000"  # every table defect is repaired in /repo (Flags.allRepaired)
+    TABLE_FLAGS = "0000000"  # every table defect is repaired in /repo (Flags.allRepaired)
 FRAMES_VARIANT = int(os.environ.get("VERIF_C01_FRAMES_VARIANT", FRAMES_VARIANT))
 TEXT_FLAGS = os.environ.get("VERIF_C01_TEXT_FLAGS", TEXT_FLAGS)
 TABLE_FLAGS = os.environ.get("VERIF_C01_TABLE_FLAGS", TABLE_FLAGS)
-# the composition layer's own flag — 1 = today's code: in an expanding table a `ratio=0` column next to an active ratio column is handed
-# 0 cells (`max(0, width)`) and then one cell by the re-measure after a collapse, so the table is one cell too wide (finding
-# table-ratio-zero-column; repair: pending_fixes/C01-table-ratio-zero-column.diff).  The width algorithm is C07's model, which is
-# faithful to today's code; with 0 (repaired code) the driver answers `unmodelled` for trees holding such a table until that model
-# carries the repaired variant.
-RATIO_ZERO_COLUMN = int(os.environ.get("VERIF_C01_RATIO_ZERO_COLUMN", "0"))
-FLAGS = f"{FRAMES_VARIANT},{TEXT_FLAGS},{TABLE_FLAGS},{RATIO_ZERO_COLUMN}"
+FLAGS = f"{FRAMES_VARIANT},{TEXT_FLAGS},{TABLE_FLAGS}"
 
 
 def widths_for(rng, smin, quick, dense=12, top=200):
@@ -56,8 +50,6 @@ def widths_for(rng, smin, quick, dense=12, top=200):
 def classify(e, dom):
     if dom == "f23":
         return "progressbar-no-newline"
-    if dom == "rz":
-        return "table-ratio-zero-column"
     return None
 
 
@@ -269,11 +261,10 @@ MANIFEST = {
     "200, console widths 12..200, ASCII-only / legacy-Windows / colour consoles, objects re-rendered to expose kept state; smin computed "
     "independently in Python and cross-checked; the property evaluated directly on rich's own output on a domain WIDER than the theorem's "
     "(ratio tables, Constrain/Align at any width, Columns(width>=1), Table(width)).",
-    "note": "Findings: progressbar-no-newline (F23, known) and table-ratio-zero-column (new: Table(expand=True) with columns ratio=1, ratio=0 and "
-    "a wide ordinary column is one cell too wide at every width where the wide column wraps; repair pending_fixes/C01-table-ratio-zero-column.diff, "
-    "430 baseline tests pass, flag RATIO_ZERO_COLUMN).  Excluded from the theorem with witness: text overflow='ignore' / explicit end, a group "
-    "member that does not end its line, table columns with width / min_width / no_wrap, ratio=0 column in an expanding table, "
-    "Columns(width=0).  NOT DISCHARGED (no counterexample in any run, evaluated directly): Constrain/Align narrower than the child's structural "
+    "note": "Findings: progressbar-no-newline (F23, known) and table-ratio-zero-column (found by this check: Table(expand=True) with columns ratio=1, "
+    "ratio=0 and a wide ordinary column was one cell too wide at every width where the wide column wraps; repaired by fix 75c2776, modelled "
+    "by C07's flag flexClampZero, witness `old_ratio_zero_column_overflows`).  Excluded from the theorem with witness: text overflow='ignore' / explicit end, a group "
+    "member that does not end its line, table columns with width / min_width / no_wrap, Columns(width=0) (a ratio=0 column in an expanding table only for the code before fix 75c2776).  NOT DISCHARGED (no counterexample in any run, evaluated directly): Constrain/Align narrower than the child's structural "
     "minimum, Table(width) below one cell per column, Columns(width>=1), a Rule under overflow='ignore'.  Outside the model (driver answers "
     "`unmodelled`, counted): panel/rule titles that are not one-line simple text or are wider than console.width (only when rendering wider "
     "than the console), a __rich__ that returns another __rich__ object, styles (only text and segmentation are modelled; a str is modelled as "
